@@ -18,7 +18,7 @@ for pid in ALL:
         "evidence_file": f"/verif/evidence/{pid}.json",
         "replay_cmd_template": f"./check {pid} --replay {{path}}",
         "engine": "lean4-model+correspondence",
-        "level_claimed": {"category": "proof", "text": P["level_text"], "design_ref": P.get("design_ref", "DESIGN.md section 6")},
+        "level_claimed": {"category": P.get("level", "proof"), "text": P["level_text"], "design_ref": P.get("design_ref", "DESIGN.md section 6")},
         "level_note": P["level_note"],
         "technique": P["technique"],
     })
